@@ -83,6 +83,41 @@ def gen_lines(rng, w, cap, tier):
         k = rng.choice([2, 3, 8, 63, 64, 65, 128, 255, 256, 257, 1 + rng.below(cap * w - 50)])
         b = rng.choice([2, 2, 3, 4, 5, 7, 1 << k, (1 << k) + 1, (1 << k) - 1, rng.bits(k) | (1 << (k - 1)), 2 + rng.below(14)])
         out.append("bn_rand_mod %s %x" % (rng.bytes(8).hex(), max(b, 2)))
+    # bn_rand with the state after the call shown (next 16 bytes): every branch of the model — zero bits, below one digit, exact
+    # multiples of the digit size (no mask), one over, the largest request that fits, the first that does not, both signs
+    edge = [0, 1, 2, 7, 8, 9, w - 1, w, w + 1, 2 * w - 1, 2 * w, 2 * w + 1, 255, 256, 257, cap * w - w, cap * w - 1, cap * w,
+            cap * w + 1, cap * w + w, cap * w + w + 1]
+    for bits in edge:
+        for sign in (0, 1):
+            out.append("bn_rand_st %s %d %d" % (rng.bytes(1 + rng.below(16)).hex(), sign, bits))
+    for _ in range(120 if tier == "quick" else 3000):
+        bits = rng.choice([rng.below(w + 1), w * (1 + rng.below(cap)), w * rng.below(cap) + 1 + rng.below(w - 1), rng.below(cap * w + 2 * w)])
+        out.append("bn_rand_st %s %d %d" % (rng.bytes(1 + rng.below(16)).hex(), rng.below(2), bits))
+    return out
+
+
+def fp_contexts(exe):
+    """(id, p, bits, digs) of every field parameter identifier the build supports (asked from the running library)"""
+    import subprocess
+    ids = list(range(1, 130))
+    out = subprocess.run([exe], input="".join("fp_rand_ctx %d\n" % i for i in ids), stdout=subprocess.PIPE,
+                         stderr=subprocess.DEVNULL, text=True, timeout=300).stdout.split("\n")
+    res = []
+    for i, l in zip(ids, out):
+        if l.startswith("p="):
+            kv = dict(t.split("=") for t in l.split())
+            res.append((i, kv["p"], int(kv["bits"]), int(kv["digs"])))
+    return res
+
+
+def fp_lines(rng, ctxs, tier):
+    """fp_rand for every supported prime: primes far below 2^bits (the subtraction loop runs for a large share of the draws) and primes
+    just below 2^bits (it practically never runs)"""
+    out = []
+    per = 12 if tier == "quick" else 300
+    for (i, p, bits, digs) in ctxs:
+        for _ in range(per):
+            out.append("fp_rand %s %d %s %d %d" % (rng.bytes(1 + rng.below(16)).hex(), i, p, bits, digs))
     return out
 
 
@@ -97,9 +132,20 @@ def streams(ctx, scale=1):
     exe = ctx.oracle("base", defs=("ORACLE_MD",), sources=("oracle.c", "ops_bn.c", "ops_md.c"), tag="_md")
     hdr, kv = _cfg(exe)
     lines = ["cfg"] + CORPUS
+    fctx = fp_contexts(exe)
     for _ in range(scale):
         lines += gen_lines(ctx.rng, kv["w"], kv["size"], ctx.tier)
-    return [{"name": "drbg-base", "cfg": "base", "exe": exe, "lines": lines}]
+        lines += fp_lines(ctx.rng, fctx, ctx.tier)
+    res = [{"name": "drbg-base", "cfg": "base", "exe": exe, "lines": lines}]
+    # a field whose bit length is not a multiple of the digit size (the top-digit mask of fp_rand)
+    exe2 = ctx.oracle("p255", defs=("ORACLE_MD",), sources=("oracle.c", "ops_bn.c", "ops_md.c"), tag="_md")
+    hdr2, kv2 = _cfg(exe2)
+    lines2 = ["cfg"]
+    fctx2 = fp_contexts(exe2)
+    for _ in range(scale):
+        lines2 += fp_lines(ctx.rng, fctx2, ctx.tier)
+    res.append({"name": "fprand-p255", "cfg": "p255", "exe": exe2, "lines": lines2})
+    return res
 
 
 def search_streams(ctx, mfail):
@@ -107,8 +153,9 @@ def search_streams(ctx, mfail):
 
 
 def replay_streams(ctx, rp):
-    exe = ctx.oracle("base", defs=("ORACLE_MD",), sources=("oracle.c", "ops_bn.c", "ops_md.c"), tag="_md")
-    return [{"name": "replay", "cfg": "base", "exe": exe, "lines": ["cfg"] + rp.get("op_lines", [])}]
+    cfg = rp.get("config", "base")
+    exe = ctx.oracle(cfg, defs=("ORACLE_MD",), sources=("oracle.c", "ops_bn.c", "ops_md.c"), tag="_md")
+    return [{"name": "replay", "cfg": cfg, "exe": exe, "lines": ["cfg"] + rp.get("op_lines", [])}]
 
 
 def nontrivial(r):
